@@ -307,7 +307,7 @@ struct Driver {
     if (want_io) {
       // (for a dry run only calls of the planning/starting phase: a log that
       // cannot be read is discarded by design, with or without -n)
-      int64_t k = pick(p.dry ? "smu" : "sOmuntPSwrh");
+      int64_t k = pick(p.dry ? "smuO" : "sOmuntPSwrh");
       if (k >= 0) p.fp.io_errors[k] = 5;
     }
     p.fp.orphans_finish = H(2) == 1;
@@ -908,7 +908,11 @@ struct Driver {
   // (or the obstacle is removed again).
   void DoBlockDir() {
     std::vector<std::string> dirs;
-    for (const Stmt& s : w.sc.stmts) if (s.alive && !s.phony) for (auto& o : s.outs) { size_t sl = o.find('/'); if (sl != std::string::npos) dirs.push_back(o.substr(0, sl)); }
+    for (const Stmt& s : w.sc.stmts) if (s.alive && !s.phony) {
+      for (auto& o : s.outs) { size_t sl = o.find('/'); if (sl != std::string::npos) dirs.push_back(o.substr(0, sl)); }
+      size_t sl = s.depfile.find('/');
+      if (sl != std::string::npos && s.depfile.find('/', sl + 1) != std::string::npos) dirs.push_back(s.depfile.substr(0, sl));
+    }
     if (dirs.empty()) return;
     std::string dir = dirs[H((uint32_t)dirs.size())];
     Inode* n = w.k.fs.Find(w.k.Abs(dir));
